@@ -523,6 +523,7 @@ func runC07(c *Ctx) {
 	checkListApplySiblings(c, "siblings.apply-errors")
 	checkNoRelabelAsMissing(c, "siblings.no-relabel")
 	checkGenericErrorDiscipline(c, "pkg/core")
+	checkBatchDistributesAllKeys(c, "siblings.batch-distributes-all")
 }
 
 // checkMergeKeysState is shared by several properties (the clause is necessary for each of them).
